@@ -514,7 +514,8 @@ pub async fn run_script_ticks(sc: &Script, max_ticks: u32) -> Option<Outcome> {
         fails.push((format!("role:client:unverified-key-exchange-in-sequence-not-rejected:ended-{}", c.ep.letter()), text.clone())); }
     if bad_cert_to_server && sc.rules.len() == 1 && s.ep.letter() != 'F' {
         fails.push((format!("role:server:non-matching-certificate-in-sequence-not-rejected:ended-{}", s.ep.letter()), text.clone())); }
-    if forged && c.ep.letter() != 'F' { fails.push((format!("role:client:wrong-verify-data-not-rejected:ended-{}", c.ep.letter()), text.clone())); }
+    // (a client the script closed is Closed, not Failed)
+    if forged && c.ep.letter() != 'F' && !sc.rules.iter().any(|r| r.act == Act::CloseClient) { fails.push((format!("role:client:wrong-verify-data-not-rejected:ended-{}", c.ep.letter()), text.clone())); }
     // (in a multi-fault script the inserted message may never be reached in sequence — then Handshaking is a legitimate end)
     if inserted_cert && c.expected.is_some() && (c.ep.letter() == 'C' || (sc.rules.len() == 1 && c.ep.letter() != 'F')) {
         fails.push((format!("role:client:non-matching-certificate-in-sequence-not-rejected:ended-{}", c.ep.letter()), text.clone()));
